@@ -189,6 +189,24 @@ fn check_cert(ctx: &mut Ctx, key: &SignedSecretKey, name: &str, with_messages: b
             check_issuer_subpackets(ctx, &b, &ref_fp, &ref_id, rprim.version, "detached", &replay);
         }
     }
+    // cleartext signature framework and text-mode detached signature: same issuer fields
+    if let Some(Ok(csf)) = ctx.guarded("C13/sign-cleartext", || replay.clone(), || {
+        pgp::composed::CleartextSignedMessage::sign(&mut rng, "issuer\nfields\n", &key.primary_key, &Password::empty())
+    }) {
+        for sig in csf.signatures() {
+            if let Ok(b) = sig.to_bytes() {
+                ctx.seen("embedded", "cleartext-issuer");
+                check_issuer_subpackets(ctx, &b, &ref_fp, &ref_id, rprim.version, "cleartext", &replay);
+            }
+        }
+    }
+    if let Some(Ok(sig)) = ctx.guarded("C13/sign-text", || replay.clone(), || {
+        DetachedSignature::sign_text_data(&mut rng, &key.primary_key, &Password::empty(), HashAlgorithm::Sha512, &b"hello\r\n"[..])
+    }) {
+        if let Ok(b) = sig.signature.to_bytes() {
+            check_issuer_subpackets(ctx, &b, &ref_fp, &ref_id, rprim.version, "detached-text", &replay);
+        }
+    }
     // third-party certification over another key's user id: issuer fields must name the signer
     {
         let other_spec = Spec::simple(rprim.version == 6, if rprim.version == 6 { Alg::Ed25519 } else { Alg::EcdsaP256 }, None);
@@ -273,9 +291,6 @@ fn check_cert(ctx: &mut Ctx, key: &SignedSecretKey, name: &str, with_messages: b
         if let Some(other_sub) = other_pub.public_subkeys.first() {
             let other_ref = other_sub.key.to_bytes().ok().and_then(|b| RefPub::parse_prefix(&b).map(|x| x.0));
             for v2 in [false, true] {
-                if v2 && own_ref.version != 6 {
-                    continue;
-                }
                 // (own named?, other named?, own first?)
                 for (own_named, other_named, own_first) in [(true, false, true), (false, true, true), (true, false, false), (false, true, false), (true, true, true), (false, false, true)] {
                     let res = ctx.guarded("C13/encrypt-multi", || replay.clone(), || -> pgp::errors::Result<Vec<u8>> {
@@ -349,9 +364,8 @@ fn check_cert(ctx: &mut Ctx, key: &SignedSecretKey, name: &str, with_messages: b
         let pubsub = &publ.public_subkeys[si];
         let _ = sk;
         for v2 in [false, true] {
-            if v2 && rs.version != 6 {
-                continue; // the builder only makes v6 PKESK for v6 keys
-            }
+            // (SEIPDv2 makes a v6 PKESK for keys of every version: its recipient field is the key version
+            // octet followed by that version's fingerprint)
             let res = ctx.guarded("C13/encrypt", || replay.clone(), || {
                 if v2 {
                     let mut b = MessageBuilder::from_bytes("", &b"hi"[..]).seipd_v2(
